@@ -173,11 +173,13 @@ def _run_schedule(cfg, choices, horizon, stateful, program, wait, use_with, chan
       # a second close is a no-op, and play must be refused afterwards
       io.close()
       out.notes["second_close"] = True
-      try:
-        io.play([1.0, 2.0], chunk_size=CHUNK)
-        out.notes["play_after_close"] = "accepted"
-      except VT.ThreadError:
-        out.notes["play_after_close"] = "refused"
+      for attempt in (1, 2):       # refused every time (a refused play must not leave the manager locked)
+        try:
+          io.play([1.0, 2.0], chunk_size=CHUNK)
+          out.notes["play_after_close"] = "accepted"
+          break
+        except VT.ThreadError:
+          out.notes["play_after_close"] = "refused"
     except core.Abort:
       raise
     except BaseException as exc:
